@@ -9,7 +9,9 @@ import (
 	"encoding/json"
 	"fmt"
 	"os"
+	"runtime"
 	"runtime/debug"
+	"sync/atomic"
 	"sort"
 	"strings"
 	"time"
@@ -327,9 +329,41 @@ func faultStrings(fs []sched.FaultRec) []string {
 
 const capSet = 200000
 
+var (
+	wdSeed   atomic.Uint64
+	wdStamp  atomic.Int64
+	wdPhase  atomic.Value
+	wdActive atomic.Bool
+)
+
+// watchdog aborts the process with a diagnostic when a single run makes no
+// progress for a long time (a bug in the harness or simulator, never a verdict).
+func watchdog(limit time.Duration) {
+	for {
+		time.Sleep(2 * time.Second)
+		if !wdActive.Load() {
+			continue
+		}
+		if time.Since(time.Unix(0, wdStamp.Load())) > limit {
+			buf := make([]byte, 1<<20)
+			n := runtime.Stack(buf, true)
+			fmt.Fprintf(os.Stderr, "WATCHDOG: run_seed=%d phase=%v made no progress for %v\n%s\n", wdSeed.Load(), wdPhase.Load(), limit, buf[:n])
+			os.Exit(3)
+		}
+	}
+}
+
+func wdMark(seed uint64, phase string) {
+	wdSeed.Store(seed)
+	wdPhase.Store(phase)
+	wdStamp.Store(time.Now().UnixNano())
+	wdActive.Store(true)
+}
+
 // Worker runs the loop and returns the report.
 func Worker(sc Scenario, cfg WorkerCfg) WorkerOut {
 	start := time.Now()
+	go watchdog(45 * time.Second)
 	out := WorkerOut{Worker: cfg.Worker, Discarded: map[string]int{}, Faults: map[string]int{}, Probes: map[string]int{}, KnownHit: map[string]int{}}
 	sigs := map[string]bool{}
 	states := map[string]bool{}
@@ -343,6 +377,7 @@ func Worker(sc Scenario, cfg WorkerCfg) WorkerOut {
 			break
 		}
 		runSeed := choice.Mix(cfg.Seed, uint64(cfg.Worker), uint64(k))
+		wdMark(runSeed, "run")
 		res := Execute(sc, choice.New(runSeed), cfg.Opts)
 		out.Runs++
 		out.Draws += len(res.Tape)
@@ -408,6 +443,7 @@ func Worker(sc Scenario, cfg WorkerCfg) WorkerOut {
 		seenViol[res.Viol.Sig] = true
 		sig := res.Viol.Sig
 		runTape := func(t []uint32) choice.Outcome {
+			wdMark(runSeed, "shrink")
 			r2 := Execute(sc, choice.Replay(t), cfg.Opts)
 			return choice.Outcome{Interesting: r2.Viol != nil && r2.Viol.Sig == sig, Tape: r2.Tape, Spans: r2.Spans}
 		}
